@@ -326,6 +326,10 @@ func (r *MemberCBRun) Run() []TraceLine {
 		tl := TraceLine{Run: r.sch.ID, I: k + 1, L: st.L}
 		if msg := r.exec(st.L); msg != "" {
 			tl.Skipped = msg
+		} else if st.Post != nil {
+			// the event bus delivers an announcement on a goroutine of its own: give the predicted events time to arrive
+			want := len(st.Evs)
+			r.s.WaitCond(stepTimeout, func(_ map[string]string, _ map[string]bool, nev int) bool { return nev >= want })
 		}
 		tl.Evs = r.s.Drain()
 		tl.Post = r.post()
